@@ -50,6 +50,19 @@ func c08Init() {
 		for i := range corpusPatterns {
 			c08Seeds = append(c08Seeds, corpusChange(i).PatchText())
 		}
+		// constructs the pattern scanner treats specially (type parameter lists, receivers, variadics, literals
+		// holding brackets): their truncations and mutations reach the scanner's bracket-matching loops
+		c08Seeds = append(c08Seeds,
+			"@@\nvar f identifier\n@@\n-func f[K comparable, V any](m map[K]V) []K {\n+func f[K comparable, V any](m map[K]V, extra int) []K {\n   ...\n }\n",
+			"@@\nvar f identifier\n@@\n-func f[S ~[]E, E interface{ ~int | ~string }](s S) E {\n+func f[S ~[]E, E any](s S) E {\n   ...\n }\n",
+			"@@\nvar r, T identifier\n@@\n func (r *Recv[T]) Tgt(...) (..., error) {\n+  enter()\n   ...\n }\n",
+			"@@\nvar N identifier\n@@\n type N[T any, U comparable] struct {\n   ...\n-  old T\n+  renamed T\n   ...\n }\n",
+			"@@\nvar f identifier\nvar x expression\n@@\n-f[int, string](x, args...)\n+f[string, int](args..., x)\n",
+			"@@\nvar x expression\n@@\n-target(\"(\", '[', `{`, x, []int{1, 2}[0], map[string][]int{\"a\": {1}})\n+repl(x)\n",
+			"@@\nvar f identifier\n@@\n-func f(a, b int, rest ...string) (n int, err error) {\n+func f(ctx Ctx, a, b int, rest ...string) (n int, err error) {\n   ...\n }\n",
+			"@@\nvar x expression\n@@\n-go func(a [3]int, m map[string]func(...int) []byte) { target(x) }(...)\n+go run(x)\n",
+			"@@\n@@\n-type Tgt interface {\n-  M(...) (..., error)\n-  ~int | ~[]byte\n-}\n+type Tgt any\n",
+		)
 		// targets chosen for construct coverage
 		c08Targets = []string{
 			"package p\n",
